@@ -196,8 +196,6 @@ def gen_cases(ctx, scale=1.0):
     vals = list(all_values(maxlen))
     per_value = 2 if ctx.quick else 1
     for v in vals:
-        if len(v) == 4 and rng.random() > 0.35:   # thorough: every length-4 value would be 130k shells x templates
-            continue
         for _ in range(per_value):
             cases.append(scalar_case(rng, v))
     exhaustive_n = len(cases)
@@ -309,7 +307,7 @@ def classify_bash_diff(c, cr, b):
     if any(ch not in WS for ch in ifs) and any(ch in v for ch in ifs if ch not in WS):
         return "KF-C05-nonws-ifs-empty-fields"
     # bash takes an (unterminated) extglob opener for a pattern even with extglob off: failglob / nullglob fire
-    if ("F" in c.opts or "n" in c.opts) and "e" not in c.opts and "f" not in c.opts and re.search(r"[+@!?*]\(", v):
+    if ("F" in c.opts or "n" in c.opts) and "f" not in c.opts and re.search(r"[+@!?*]\(", v) and cr[0] == "OK":
         return "KF-C04-extglob-opener-failglob"
     # bash's glob_pattern_p: any unquoted [ ... ] counts as a pattern (so failglob / nullglob fire) even when it is
     # not a well-formed bracket expression for brush ([] , []x , [!] ...)
